@@ -49,7 +49,7 @@ def main():
         wt = "/tmp/mw/rebase_%s" % name
         sh("rm -rf %s; git -C /repo worktree add --detach %s HEAD" % (wt, wt))
         ap = sh("git -C %s apply %s/patch.diff || git -C %s apply --3way %s/patch.diff" % (wt, d, wt, d))
-        diff = sh("git -C %s diff" % wt).stdout
+        diff = sh("git -C %s diff HEAD" % wt).stdout
         sh("git -C /repo worktree remove --force %s; git -C /repo worktree prune" % wt)
         prop = name.split("_")[0]
         ok = ("49 passed" in baseline and demo_rc not in ("0", "na") and clean.returncode == 0 and diff.strip())
